@@ -460,3 +460,5 @@ def run(ctx):
     r6 = ctx.rule("R6", "the 'stale' column of the table is the make-style decision (composition with C01: missing output, newest input vs oldest output)", min_instances=3)
     from .shared import import_rules
     import_rules(ctx, r6, "C01", only={"R1", "R2", "R3"})
+    # the 'backend state' column: a pending or running job is reported under the id that was tracked for it (ids agree between writer and reader, all backends)
+    import_rules(ctx, r1, "C08", only={"R2"})
